@@ -359,18 +359,19 @@ Section Loop.
       built f me s (ISym (s_name s) (s_prefixes s) (s_dims s) (TyInst i) []).
 
   Lemma build_syms_plain f me myref :
-    (forall t tc tlex tparent b, lookup me t = Some (tc, tlex, tparent, b) -> Q tc tlex tparent) ->
-    forall ss acc l rest,
+    forall ss,
+    (forall s tc tlex tparent b, In s ss -> lookup me (s_type s) = Some (tc, tlex, tparent, b) -> Q tc tlex tparent) ->
+    forall acc l rest,
     Forall plain_sym ss ->
     build_syms root false (build root false f) (extends_builtin root f) me myref ss [] [] acc = Ok (l, rest) ->
     exists l', l = rev acc ++ l' /\ Forall2 (built f me) ss l'.
   Proof.
-    intros Hme. induction ss as [|s ss IH]; intros acc l rest Hp H; cbn [build_syms mlookup] in H.
+    induction ss as [|s ss IH]; intros Hme acc l rest Hp H; cbn [build_syms mlookup] in H.
     - inversion H; subst. exists []. rewrite app_nil_r. split; [reflexivity | constructor].
     - inversion Hp as [|? ? [Hm Hnd] Hp']; subst.
       destruct (mem_id (head_id (s_type s)) BUILTIN) eqn:E.
       + rewrite Hm in H. cbn [filter flat_map app] in H.
-        apply IH in H; [|assumption]. destruct H as [l' [-> F]].
+        apply IH in H; [| intros s0 tc0 tlex0 tp0 b0 Hin0; apply Hme; right; exact Hin0 | assumption]. destruct H as [l' [-> F]].
         eexists (_ :: l'). split; [cbn [rev]; rewrite <- app_assoc; reflexivity|].
         constructor; [apply BElem; assumption | assumption].
       + destruct (lookup me (s_type s)) as [[[[tc tlex] tparent] b]|] eqn:L; [|discriminate H].
@@ -385,9 +386,9 @@ Section Loop.
         { destruct ib; cbn [flat_map shift_args bind app map] in H; destruct b; cbn [app map] in H;
             destruct (build root false f tc tlex tparent [] []) as [i|err]; cbn [bind] in H;
             try discriminate H; split; (reflexivity || exact H). }
-        apply IH in H'; [|assumption]. destruct H' as [l' [-> F]].
+        apply IH in H'; [| intros s0 tc0 tlex0 tp0 b0 Hin0; apply Hme; right; exact Hin0 | assumption]. destruct H' as [l' [-> F]].
         eexists (_ :: l'). split; [cbn [rev]; rewrite <- app_assoc; reflexivity|].
-        pose proof (Hme _ _ _ _ _ L) as Hq.
+        pose proof (Hme s _ _ _ _ (or_introl eq_refl) L) as Hq.
         constructor; [eapply BInst; eassumption | assumption].
   Qed.
 
@@ -526,8 +527,8 @@ Proof.
     assert (Forall fplain (me_of (CDef nm k cs [] ss es) lex parent)) as Hme.
     { constructor; [|assumption]. unfold fplain. cbn [f_entries].
       apply od_update_Forall; [constructor | apply entries_plain; assumption]. }
-    destruct (build_syms_plain root Q1 (S f) _ _ (fun t tc tlex tparent b L => lookup_plain _ _ _ _ _ _ Hme L)
-                _ _ _ _ Hss BS) as [l' [-> F]].
+    destruct (build_syms_plain root Q1 (S f) _ _ _ (fun s0 tc tlex tparent b _ L => lookup_plain _ _ _ _ _ _ Hme L)
+                _ _ _ Hss BS) as [l' [-> F]].
     cbn [rev app c_syms c_kind c_eqs] in *.
     cbn [flatten_symbols] in Fs.
     destruct (fs_go flatten_symbols prefix l' [] []) as [[flat feqs]|err] eqn:G; cbn [bind] in Fs; [|discriminate Fs].
